@@ -126,6 +126,42 @@ def explore(ctx):
         ctx.count('exhaustive-schedule-sets')
         if runs and all(contract_ok(o) for _, o in runs):
             check_indep(ctx, sc, runs)
+    # 3. directed: an interesting candidate, a failing one, another interesting one; every completion pattern
+    directed = [
+        {'files': [('f0.c', 'abcd')], 'rules': [([('nothas', 0, 'b')], 1), ([], 0)],
+         'passes': [{'key': 1, 'ops': [('delch', 'a'), ('delch', 'b'), ('delch', 'c'), ('delch', 'd')], 'aos': 0, 'maxt': None, 'newfix': None}]},
+        {'files': [('f0.c', 'abcde')], 'rules': [([('nothas', 0, 'b')], 3), ([('nothas', 0, 'c')], 1), ([], 0)],
+         'passes': [{'key': 1, 'ops': [('delch', 'a'), ('inval',), ('delch', 'b'), ('delch', 'c'), ('delch', 'd'), ('delch', 'e')], 'aos': 1, 'maxt': None, 'newfix': None}]},
+    ]
+    dlen = 8 if ctx.quick() else 11
+    for sc in directed:
+        runs = []
+        for n in (1, 3, 4):
+            for sch in itertools.product((0, 1), repeat=dlen if n > 1 else 1):
+                sc2 = dict(sc, cfg={'N': n, 'no_cache': True}, sched=list(sch))
+                o = driver.run_scenario(sc2, ctx.tmp)
+                ctx.evaluations += 1
+                if o.diverged:
+                    break
+                runs.append((sc2, o))
+        ctx.count('directed-schedule-sets')
+        if runs and all(contract_ok(o) for _, o in runs):
+            check_indep(ctx, dict(sc, cfg={'N': 1}), runs)
+    # 4. real processes: the earlier candidate is interesting but its test is slow, a later one is interesting at once
+    from vlib import realrun
+    for n in ((2,) if ctx.quick() else (2, 3, 4)):
+        rsc = {'files': [('f0.c', 'abcd')], 'timeout': 5, 'slow_s': 1.2,
+               'rules': [([('nothas', 0, 'a'), ('has', 0, 'b')], 'slow0'), ([('has', 0, 'a'), ('nothas', 0, 'b')], 0), ([('has', 0, 'a'), ('has', 0, 'b')], 0)],
+               'passes': [{'key': 1, 'ops': [('delch', 'a'), ('delch', 'b'), ('delch', 'c'), ('delch', 'd')], 'aos': 0}], 'cfg': {'N': n}}
+        o = realrun.run_real(rsc, ctx.tmp, timeout=rsc['timeout'])
+        ctx.evaluations += 1
+        ctx.count('real-pool:slow-earlier-candidate')
+        final = [c.decode('latin-1') for c in o.passes[-1]['disk']]
+        if final != ['b']:
+            ctx.violation('differs-from-sequential', f'real pool N={n}: deleting "a" is interesting (slow test), deleting "b" as well (fast test), both is not: the run ended on {final}, '
+                          f'the one-at-a-time loop ends on ["b"]', {'scenario': rsc, 'real': True})
+        else:
+            ctx.nontriv(('real-slow-earlier', n))
     ctx.sample({'scenario': {k: cases[0][2][k] for k in ('files', 'passes', 'rules', 'cfg', 'sched')}, 'impl_output': cases[0][1][:40]})
     bad = coq.corr_eval('c02', IMPORTS, 'sc_run_each', [(a, b) for a, b, _ in cases], shard=150)
     ctx.count('model-out-of-fuel(undecided)', len(coq.LAST_FUEL))
@@ -156,6 +192,14 @@ def check_indep(ctx, sc, runs):
 def replay(ctx, payload):
     r = payload['replay']
     sc = r['scenario']
+    if r.get('real'):
+        from vlib import realrun
+        o = realrun.run_real(sc, ctx.tmp, timeout=sc['timeout'])
+        final = [c.decode('latin-1') for c in o.passes[-1]['disk']]
+        print('replay: final', final)
+        if final != ['b']:
+            ctx.violation('differs-from-sequential', f'final {final}', r)
+        return
     o = driver.run_scenario(sc, ctx.tmp)
     runs = [(sc, o)]
     if 'against' in r:
